@@ -15,7 +15,7 @@ LEVEL = "exploration"
 RULE = ("base cases: one pool instance, 2-6 fully consumed calls mixing imap / imap_unordered, empty inputs in between, "
         "different chunk sizes and input forms; FactoryFunctorPool with quota 1-5 and call lengths of m*quota*workers "
         "chunks and +-1 (retirements exactly at the end of a call), FunctorPool without quota, bounded result queues "
-        "(incl. maxsize 1 around empty calls). Each base case: dry run, one run per (executed statement, occurrence) "
+        "(incl. maxsize 1 around empty calls), join_timeout shorter than a slow end() of retiring workers. Each base case: dry run, one run per (executed statement, occurrence) "
         "with a 120 ms delay, random 2-3 delay combinations, forced GIL hand-offs. Oracles per run: per-call value "
         "oracle, exception per call, quiescence oracle. distinct_nontrivial = distinct (base case, "
         "thread-switch-pair set, plan size).")
@@ -71,8 +71,13 @@ def gen_base(rng, tier, index):
             call["pause_after"] = 0.05
         calls.append(call)
     rq = rng.choice([None, None, 1, 1, 2, 3])
-    return {"pool": "factory" if factory else "functor", "workers": workers, "quota": quota,
+    case = {"pool": "factory" if factory else "functor", "workers": workers, "quota": quota,
             "wq": rng.choice([None, 1, 2, 1.0, 1.0, 2.0]), "rq": rq, "calls": calls}
+    if index % 5 == 2:
+        # join_timeout shorter than the workers' end(): joins of retiring workers time out (a legal configuration)
+        case["join_timeout"] = 0.1
+        case["end_delay"] = rng.choice([0.3, 0.6])
+    return case
 
 
 def owns(kind, mech, case, result):
